@@ -34,8 +34,6 @@ Definition model_abs (s : list Z) (pos : spos) (limit : option spos) : cres :=
 
 (* ------------------------------------------------------------------ one raw decoding step *)
 
-Definition nonul (s : list Z) : Prop := Forall (fun b => b <> 0) s.
-
 (* (code point, number of bytes, what follows) -- None: invalid lead or truncated *)
 Definition raw1 (s : list Z) : option (Z * Z * list Z) :=
   match s with
@@ -99,15 +97,6 @@ Proof.
 Qed.
 
 (* ------------------------------------------------------------------ what may follow the effective string *)
-
-(* [s] = effective string (no NUL), [tail] = the rest of the permitted region, [len] = the
-   length argument relative to the start of [s] *)
-Definition tail_ok (s tail : list Z) (len : option Z) : Prop :=
-  match len with
-  | None => exists junk, tail = 0 :: junk
-  | Some l => l = Z.of_nat (length s) \/
-              (Z.of_nat (length s) < l /\ exists junk, tail = 0 :: junk)
-  end.
 
 Lemma tail_ok_len_is0 : forall s tail len, s <> [] -> tail_ok s tail len -> len_is0 len = false.
 Proof.
